@@ -96,12 +96,13 @@ def defer_measurements(
     """
 
     circuit = transformer_primitives.unroll_circuit_op(circuit, deep=True, tags_to_check=None)
-    # Keyed by position: an equal measurement earlier in the circuit is not terminal.
-    terminal_measurements = set(find_terminal_measurements(circuit))
+    # Keyed by position (moment and qubits): an equal measurement earlier in the circuit is not
+    # terminal, and operations need not be hashable.
+    terminal_measurements = {(i, op.qubits) for i, op in find_terminal_measurements(circuit)}
     measurement_qubits: dict[cirq.MeasurementKey, list[tuple[cirq.Qid, ...]]] = defaultdict(list)
 
     def defer(op: cirq.Operation, moment_index) -> cirq.OP_TREE:
-        if (moment_index, op) in terminal_measurements:
+        if (moment_index, op.qubits) in terminal_measurements:
             return op
         gate = op.gate
         if isinstance(gate, ops.MeasurementGate):
